@@ -404,7 +404,7 @@ def run(c):
     # integrator-level frame covariance (shifted + boosted twin vs original)
     covw = {}
     for r in wres["cov"]:
-        name = "%s/%s/%s/%s/%s" % (r["integ"], json.dumps(r["opts"], sort_keys=True), r["kind"], r.get("role", "plain"), r.get("call", "steps"))
+        name = "%s/%s/%s/%s/%s/%s" % (r["integ"], json.dumps(r["opts"], sort_keys=True), r["kind"], r.get("role", "plain"), r.get("call", "steps"), r.get("flag", "none"))
         if "error" in r:
             covw[name] = "error: " + r["error"]
             continue
@@ -450,6 +450,15 @@ def run(c):
         dims["covariance with test particles (type 0)"] += r.get("role") == "tp0"
         dims["covariance with test particles (type 1)"] += r.get("role") == "tp1"
         dims["covariance through integrate() output calls"] += r.get("call") == "integrate"
+        if r.get("flag", "none") != "none":
+            k = "user sets %s.%s while unsynchronised" % (r["integ"], r["flag"].split(":")[-1])
+            dims[k] = dims.get(k, 0) + 1
+    # every user-settable recalculation flag of the integrators that carry a transformation state must have been set mid-run
+    for integ_, cls_ in (("whfast", rebound.integrators.whfast.IntegratorWHFast), ("mercurius", rebound.integrators.mercurius.IntegratorMercurius),
+                         ("trace", rebound.integrators.trace.IntegratorTRACE)):
+        for f_ in cls_._fields_:
+            if f_[0].startswith("recalculate_"):
+                dims.setdefault("user sets %s.%s while unsynchronised" % (integ_, f_[0]), 0)
     dims["zero-mass active body"] = zero_mass_cases
     dims["N>=50"] = hist.get(50, 0)
     c.cov["dimensions"] = dims
